@@ -736,3 +736,21 @@ V('c02-type-guard-extra-name', 'C02', 'C02.R4b',
 V('c02-fstring-template', 'C02', 'C02.R7',
   ('pywbem/_tupletree.py', "                \"Line {0} column {1} of XML string (as binary UTF-8 string):\\n\"\n                \"{2}\\n\"\n                \"{3}\",\n                lineno, colno, line, marker_line)",
    "                f\"Line {lineno} column {colno} of XML string (as binary UTF-8 \"\n                \"string):\\n\"\n                f\"{line}\\n\"\n                f\"{marker_line}\")"), 'format')
+
+# ---- rules from seed round b -------------------------------------------------
+V('c01-falsy-value-guard', 'C01', 'C01.R11',
+  ('pywbem/_tupleparse.py', "        if isinstance(val, list):\n            return [self.parse_embeddedObject(obj) for obj in val]\n        if val is None:\n            return None\n", "        if not val:\n            return None\n        if isinstance(val, list):\n            return [self.parse_embeddedObject(obj) for obj in val]\n"), 'truthiness-of-value')
+V('c04-builtin-default-ns', 'C04', 'C04.R3b',
+  ('pywbem/_cim_operations.py', "            localobject = CIMClassName(objectname,\n                                       namespace=self.default_namespace)", "            localobject = CIMClassName(objectname, namespace=DEFAULT_NAMESPACE)"), 'builtin-default')
+V('c05-dict-copy-dynamic-class', 'C05', 'C05.R8',
+  ('pywbem/_vendor/nocasedict/_nocasedict.py', "        result = NocaseDict()\n        result._data = self._data.copy()", "        result = type(self)()\n        result._data = self._data.copy()"), 'state-not-copied')
+V('c07-userinfo-unfolded', 'C07', 'C07.R4',
+  ('pywbem/_cim_obj.py', "            ret.append(case(self.host))", "            userinfo, sep, hostport = self.host.rpartition('@')\n            ret.append(userinfo + sep + case(hostport))", 2), 'not-folded')
+V('c08-hex-unbounded', 'C08', 'C08.R1',
+  ('pywbem/_mof_compiler.py', "            while j < 4:\n                c = s[i + j]", "            while i + j < len(s):\n                c = s[i + j]"), 'hex-width')
+V('c09-optional-cim-error', 'C09', 'C09.R8',
+  ('pywbem/_mof_compiler.py', "        ret_str += f\"\\n{self.cim_error}\"", "        ret_str += _format(\"\\n{0}\", self.cim_error.status_code)"), 'none-deref')
+V('c18-handler-in-filter-list', 'C18', 'C18.R7',
+  ('pywbem/_subscription_manager.py', "                    or inst.path.keybindings['Handler'] in \\\n                    owned_destination_paths:", "                    or inst.path.keybindings['Filter'] in \\\n                    owned_destination_paths:"), 'end-kind-mismatch')
+V('c20-unclaimed-truthiness', 'C20', 'C20.R7',
+  ('pywbem/_valuemapping.py', "        if self._b2v_unclaimed is not None:\n            return self._b2v_unclaimed", "        if self._b2v_unclaimed:\n            return self._b2v_unclaimed"), 'truthiness-of-sentinel')
